@@ -54,7 +54,7 @@ KINDS = {
 
 VARS = ["PATH", "LD_LIBRARY_PATH", "PYTHONPATH", "FOO_OPTS", "X"]
 WORDS = ["/opt/x/bin", "${PRODUCT_DIR}/bin", "lib", "a.b+c", "1.2", "v1_0", "-O2", "${HOME}/x:y", "(p)", "k=v"]
-SPACEY = ["two words", "a, b", "x,y", " lead", "trail ", "a  b", "-I/x -I/y", "c, d e"]
+SPACEY = ["two words", "a, b", "x,y", " lead", "trail ", "a  b", "-I/x -I/y", "c, d e", "a, ", "x,", " "]
 PRODUCTS = ["bar", "baz", "numpy", "afw"]
 
 
